@@ -59,12 +59,18 @@ N_INTERP = 200
 FLOORS = {
     "quick": {"distinct_nontrivial": 30,
               "mon": {"table_rows": 3000, "minimiser_calls": 1000, "interp_points": 4000,
+                      "ode_steps": 3000,
                       "traces_decided": 60, "tc_decided": 6},
-              "cls": {"end:past": 20, "end:inside": 20}},
+              "cls": {"end:past": 25, "end:near": 12, "judged:hi:past": 8,
+                      "judged:hi:inside": 25, "paranoid": 30, "nonparanoid": 20,
+                      "unit:0.01": 15, "unit:1": 15, "unit:100": 15}},
     "thorough": {"distinct_nontrivial": 800,
-                 "mon": {"table_rows": 100000, "minimiser_calls": 30000,
+                 "mon": {"table_rows": 100000, "minimiser_calls": 30000, "ode_steps": 100000,
                          "interp_points": 150000, "traces_decided": 1600, "tc_decided": 150},
-                 "cls": {"end:past": 600, "end:inside": 600}},
+                 "cls": {"end:past": 600, "end:near": 300, "judged:hi:past": 200,
+                         "judged:hi:inside": 600, "judged:lo:past": 10, "paranoid": 800,
+                         "nonparanoid": 500, "unit:0.01": 400, "unit:1": 400,
+                         "unit:100": 400}},
 }
 
 EPS = float(np.finfo(float).eps)
@@ -102,12 +108,12 @@ def _rand_poly1(rng):
     raise RuntimeError("poly1 draw failed")
 
 
-def _rand_poly2(rng):
+def _rand_poly2(rng, want_lower=False):
     """Two-step Z2 model with both phases coexisting around T_c and a *sub-critical*
     transverse instability (lh*ls < lhs^2/4), so that an unstable end is a hard end.
     Self-contained draw (does not depend on the zoo's random_* helpers)."""
     from wgverif.models import potentials as P
-    for _ in range(20000):
+    for _ in range(200000):
         g = float(rng.choice([20, 40, 80, 106.75]))
         lh, ls = float(rng.uniform(0.1, 0.3)), float(rng.uniform(0.1, 1.0))
         lhs = float(rng.uniform(0.8, 3.0))
@@ -127,11 +133,16 @@ def _rand_poly2(rng):
             continue
         if not pot.V_phase("low", 0.9 * Tc) < pot.V_phase("high", 0.9 * Tc):
             continue
+        if want_lower and not (0.2 * Tc < lo_h):
+            continue          # high phase must lose stability at a positive temperature
         return spec
     raise RuntimeError("poly2 draw failed")
 
 
-def _end_mode(rng):
+def _end_mode(rng, lower=False):
+    r = rng.random()
+    if lower and r < 0.08:
+        return {"mode": "onestep", "x": float(rng.uniform(0.2, 1.0))}
     r = rng.random()
     if r < 0.45:
         return {"mode": "past", "x": float(10 ** rng.uniform(-2, 1.3))}     # x*dT beyond
@@ -146,7 +157,7 @@ def generate(tier, seed):
     cases = []
     for i in range(n_tr):
         fam = "poly1" if rng.random() < 0.5 else "poly2"
-        spec = _rand_poly1(rng) if fam == "poly1" else _rand_poly2(rng)
+        spec = _rand_poly1(rng) if fam == "poly1" else _rand_poly2(rng, rng.random() < 0.5)
         spec["s"] = float(rng.choice([1e-2, 1.0, 1e2]))
         spec.update(_rand_affine(rng, 1 if fam == "poly1" else 2))
         fs = rng.random()
@@ -160,7 +171,7 @@ def generate(tier, seed):
             "rTol": float(rng.choice([1e-4, 1e-6, 1e-8])),
             "paranoid": bool(rng.random() < 0.6),
             "first": first,
-            "lo": _end_mode(rng), "hi": _end_mode(rng),
+            "lo": _end_mode(rng, lower=True), "hi": _end_mode(rng),
             "guess_pert": 0.0 if gp < 0.4 else float(rng.choice([1e-4, 1e-3, 1e-2])),
             "tscale": float(rng.choice([0.3, 1.0, 3.0])),
             "fscale": float(rng.choice([0.1, 0.3, 1.0])),
@@ -238,13 +249,42 @@ class MinimiserRecorder:
         return out
 
     def install(self):
+        """Shadow the bound method on the instance and swap scipy.integrate.RK45 (the name
+        WallGo.freeEnergy resolves at call time through its ``scipyint`` module alias) for a
+        subclass that logs every step: (integration index, t after the step, status)."""
+        import scipy.integrate as si
         self.pot.findLocalMinimum = self          # instance attribute shadows the method
+        self.steps = []                            # [(integration, t, status)]
+        self.integrations = 0
+        recorder = self
+        base = si.RK45
+        self._rk45 = base
+
+        class RecordingRK45(base):
+            def __init__(self, *a, **k):
+                super().__init__(*a, **k)
+                self._wg_id = recorder.integrations
+                recorder.integrations += 1
+
+            def step(self):
+                out = super().step()
+                recorder.steps.append((self._wg_id, float(self.t), self.status))
+                return out
+
+        si.RK45 = RecordingRK45
 
     def remove(self):
+        import scipy.integrate as si
+        if getattr(self, "_rk45", None) is not None:
+            si.RK45 = self._rk45
+            self._rk45 = None
         try:
             del self.pot.findLocalMinimum
         except AttributeError:
             pass
+
+    def steps_of(self, k):
+        return [t for (i, t, st) in self.steps if i == k]
 
 
 def _nearest_other(pot, phase, phi, T, own=None, min_sep=0.0):
@@ -271,7 +311,8 @@ R_FLOOR = 1e-6   # see judge_table: floor of the relative accuracy entering the 
 _START_CONSEQUENCES = ("row-not-at-branch-minimum", "table-stops-short-of-requested-end",
                        "rows-beyond-spinodal", "interpolated-minimum-off-branch",
                        "interpolated-free-energy-off", "row-hessian-not-positive-definite",
-                       "spinodal-end-not-flagged", "end-flagged-although-range-covered")
+                       "spinodal-end-not-flagged", "end-flagged-although-range-covered",
+                       "reminimised-row-appended-without-spinodal-recheck")
 
 
 def _attribute_start(viol, start_bad, data0, phase, res):
@@ -287,8 +328,9 @@ def _attribute_start(viol, start_bad, data0, phase, res):
         viol.remove(v)
     viol.append({
         "mech": "minimiser-absolute-gtol-accepts-nonminimum",
-        "msg": f"{phase} phase, unit factor {start_bad['unit_factor']}: the starting "
-        f"findLocalMinimum(tol={start_bad['gtol']:g}) returned {start_bad['result']} from guess "
+        "msg": f"{phase} phase, unit factor {start_bad['unit_factor']}: findLocalMinimum(T="
+        f"{start_bad['T']:.6g}, tol={start_bad['gtol']:g}) (call #{start_bad['call']}, 0 = starting "
+        f"point) returned {start_bad['result']} from guess "
         f"{start_bad['guess']} (exact {start_bad['exact']}): |grad V|_inf="
         f"{start_bad['grad_inf_norm']:.2e} passes scipy's absolute gtol but |grad V|/T0^3="
         f"{start_bad['grad_over_T0cubed']:.2e} >> rTol={data0['rTol']:g}; the trace conserves "
@@ -344,14 +386,37 @@ def judge_table(pot, phase, fe, req, rec, obs, viol, mon):
     # V = -a T^4 + ... numerically, which leaves a relative gradient error
     # sqrt(eps)*|V|/(lambda phi^4) ~ 1e-6..5e-5 on the rows whatever rTol is (observed
     # overshoot at rTol = 1e-8: up to 3e-7 relative), hence the floor R_FLOOR.
+    # The gradient is controlled relative to T0^3 (the *starting* temperature); at an end
+    # with T_end < T0 the same absolute gradient is (T0/T_end)^3 larger relative to the local
+    # scale.  How far a residual gradient of relative size g moves the end of the tilted
+    # potential depends on the end type: a fold linearly (g*T), a sub-critical transverse
+    # instability like g^(2/3) (imperfect pitchfork), a soft end like sqrt(g).
     r_eff = max(rTol, R_FLOOR)
-    slack_lo = K_TOL * r_eff * tlo if hard(klo) else 0.0
-    slack_hi = K_TOL * r_eff * thi if hard(khi) else 0.0
-    # next to a soft end a residual gradient g (relative size <= K*r_eff) unfolds the
-    # bifurcation into a fold displaced by O(sqrt(g)) in temperature: the requirement
-    # "table reaches the requested end" is only made further inside than that
-    soft_lo = math.sqrt(K_TOL * r_eff) * tlo if soft(klo) else 0.0
-    soft_hi = math.sqrt(K_TOL * r_eff) * thi if soft(khi) else 0.0
+
+    def slack_of(tend, kind):
+        if kind == "none" or not math.isfinite(tend) or tend <= 0:
+            return 0.0
+        g = min(1.0, K_TOL * r_eff * max(1.0, (req["T0"] / tend) ** 3))
+        if kind == "fold":
+            return g * tend
+        if kind == "unstable":
+            return g ** (2.0 / 3.0) * tend
+        return math.sqrt(g) * tend
+
+    slack_lo = slack_of(tlo, klo) if hard(klo) else 0.0
+    slack_hi = slack_of(thi, khi) if hard(khi) else 0.0
+    # next to a soft end the requirement "table reaches the requested end" is only made
+    # further inside than the sqrt(g) displacement
+    soft_lo = slack_of(tlo, klo) if soft(klo) else 0.0
+    soft_hi = slack_of(thi, khi) if soft(khi) else 0.0
+
+    # inside the soft zone of a merge end the Z2 mirror image of the branch is the same
+    # continuous family (the path runs through vev ~ 0): fold the vev component
+    if type(pot).__name__ == "Poly2" and khi == "merge":
+        comp = 0 if phase == "low" else 1
+        zone = X > thi - soft_hi
+        phi = phi.copy()
+        phi[zone, comp] = np.abs(phi[zone, comp])
 
     # ---- rows: strictly increasing abscissae
     if X.size < 2 or np.any(np.diff(X) <= 0):
@@ -359,6 +424,35 @@ def judge_table(pot, phase, fe, req, rec, obs, viol, mon):
                      "msg": f"table abscissae not strictly increasing ({X.size} rows)",
                      "data": data0})
         return res
+
+    # ---- every accepted RK45 step is a row: integration 0 runs upwards, 1 downwards; all
+    # steps but the last of each (which may be the one the loop stopped on) must be rows,
+    # and every row must be the start or a step
+    if getattr(rec, "steps", None):
+        mon["ode_steps"] = mon.get("ode_steps", 0) + len(rec.steps)
+        must = set()
+        for integ in (0, 1):
+            must.update(rec.steps_of(integ)[:-1])
+        allsteps = {t for (_, t, _) in rec.steps} | {req["T0"]}
+        rows = set(X.tolist())
+        missing = sorted(must - rows)
+        alien = sorted(rows - allsteps)
+        res["rows_missing"] = len(missing)
+        if missing:
+            down = rec.steps_of(1)
+            single = (len(down) == 2 and missing == [down[0]]) or \
+                     (len(down) == 1 and missing == down)
+            viol.append({"mech": ("single-downward-row-dropped" if single
+                                  else "accepted-step-missing-from-table"),
+                         "msg": f"{len(missing)} accepted RK45 step(s) are not in the table "
+                         f"(e.g. T={missing[0]!r}); downward integration made {len(down)} "
+                         f"step(s) from T0={req['T0']!r}; table starts at {X[0]!r}, request "
+                         f"TMin={req['TMin']!r}, flag {bool(fe.minPossibleTemperature[1])}",
+                         "data": {**data0, "missing": missing[:5]}})
+        if alien:
+            viol.append({"mech": "table-row-is-not-an-accepted-step",
+                         "msg": f"{len(alien)} table abscissae are neither T0 nor an RK45 step "
+                         f"(e.g. {alien[0]!r})", "data": data0})
 
     # ---- tabulated V is the potential at the tabulated point (rounding only: 1e-12)
     rV = np.abs(Vtab - Vrow) / np.maximum(np.abs(Vrow), 1e-300)
@@ -405,19 +499,23 @@ def judge_table(pot, phase, fe, req, rec, obs, viol, mon):
     # misses the dimensionless one by more than K, every later row inherits that gradient
     # (the ODE conserves grad V) and whatever goes wrong near a spinodal is attributed to it.
     start_bad = None
-    if rec.calls:
-        t0c, g0c, r0c, tol0 = rec.calls[0]
-        p0 = pot.to_phys(r0c)
-        b0 = B.branch(pot, phase, np.asarray(t0c))
-        grad0 = np.asarray(pot.grad_phys(p0, t0c), dtype=float)
-        rel0 = float(np.linalg.norm(grad0)) / t0c ** 3
-        res["start_grad_over_T3_over_rTol"] = rel0 / rTol
-        if tol0 is not None and float(np.abs(grad0).max()) <= 1.5 * tol0 and rel0 > K_TOL * rTol:
-            start_bad = {"T": t0c, "guess": pot.to_phys(g0c).tolist(), "result": p0.tolist(),
-                         "exact": b0.tolist(), "gtol": tol0,
-                         "grad_inf_norm": float(np.abs(grad0).max()),
-                         "grad_over_T0cubed": rel0, "unit_factor": getattr(pot, "s", None)}
-            obs["start_minimisation"] = start_bad
+    worst = 0.0
+    for ci, (tc_, gc_, rc_, tol_) in enumerate(rec.calls):
+        pc = pot.to_phys(rc_)
+        grad = np.asarray(pot.grad_phys(pc, tc_), dtype=float)
+        rel = float(np.linalg.norm(grad)) / req["T0"] ** 3
+        if ci == 0:
+            res["start_grad_over_T3_over_rTol"] = rel / rTol
+        if tol_ is not None and float(np.abs(grad).max()) <= 1.5 * tol_ and rel > K_TOL * rTol \
+                and rel > worst:
+            worst = rel
+            start_bad = {"call": ci, "T": tc_, "guess": pot.to_phys(gc_).tolist(),
+                         "result": pc.tolist(),
+                         "exact": B.branch(pot, phase, np.asarray(tc_)).tolist(), "gtol": tol_,
+                         "grad_inf_norm": float(np.abs(grad).max()),
+                         "grad_over_T0cubed": rel, "unit_factor": getattr(pot, "s", None)}
+    if start_bad:
+        obs["unconverged_minimisation"] = start_bad
 
     off_value = inside & (np.abs(excess) > tolV)
     res["excess_over_tol_max"] = float(np.max(np.abs(excess[inside]) / tolV[inside])) \
@@ -441,8 +539,8 @@ def judge_table(pot, phase, fe, req, rec, obs, viol, mon):
                         "beyond_hi": bool(hard(khi) and t > thi),
                         "beyond_lo": bool(hard(klo) and t < tlo),
                         "dist_to_spinodal_over_dT": float(min(
-                            abs(t - thi) if hard(khi) else math.inf,
-                            abs(t - tlo) if hard(klo) else math.inf) / dT),
+                            abs(t - thi) if (hard(khi) or soft(khi)) else math.inf,
+                            abs(t - tlo) if (hard(klo) or soft(klo)) else math.inf) / dT),
                         "near_end": bool(near_end(t))}
             break
     if hop_call:
@@ -509,9 +607,22 @@ def judge_table(pot, phase, fe, req, rec, obs, viol, mon):
     neg = [k for k in np.nonzero((ev < -tolH) & strictly_in)[0] if k not in hop_idx]
     if neg:
         k = neg[int(np.argmin(ev[neg]))]
-        viol.append({"mech": "row-hessian-not-positive-definite",
-                     "msg": f"row T={X[k]:.9g} phi={phi[k].tolist()}: smallest analytic Hessian "
-                     f"eigenvalue {ev[k]:.3e} < -{tolH[k]:.1e} (FD rounding bound)",
+        mech = "row-hessian-not-positive-definite"
+        extra = ""
+        # attribution: the row is the *result* of a re-minimisation whose guess (the point
+        # the tracer's spinodal test had looked at) still had a positive-definite Hessian
+        for (t, g, r, tol) in rec.calls[1:]:
+            if t == X[k] and np.array_equal(r, Y[k, :n]):
+                evg = float(np.linalg.eigvalsh(np.asarray(pot.hess_phys(pot.to_phys(g), t)))[0])
+                if evg > -tolH[k] and not req["paranoid"]:
+                    mech = "reminimised-row-appended-without-spinodal-recheck"
+                    extra = (f"; it is the result of findLocalMinimum from {pot.to_phys(g).tolist()} "
+                             f"(eigenvalue there {evg:.3e} > 0), accepted after the spinodal test")
+                break
+        viol.append({"mech": mech,
+                     "msg": f"row T={X[k]:.9g} ({(thi - X[k]) / dT if hard(khi) else math.inf:.2g} dT "
+                     f"before the upper spinodal) phi={phi[k].tolist()}: smallest analytic Hessian "
+                     f"eigenvalue {ev[k]:.3e} < -{tolH[k]:.1e} (FD rounding bound)" + extra,
                      "data": {**data0, "row": int(k)}})
 
     # ---- consecutive rows: no jump between branches.  |dphi_k - d branch_k| against half
@@ -565,7 +676,15 @@ def judge_table(pot, phase, fe, req, rec, obs, viol, mon):
                              f"{tend:.9g} ({kind}) but the flag is False; table ends at "
                              f"{tabT:.9g}", "data": data0})
         elif within:
-            if tabT != reqT:
+            down = rec.steps_of(1) if getattr(rec, "steps", None) else []
+            if tabT != reqT and side == "lo" and tabT == req["T0"] and len(down) == 1 \
+                    and down[0] == reqT:
+                viol.append({"mech": "single-downward-row-dropped",
+                             "msg": f"the downward integration reached the requested TMin="
+                             f"{reqT!r} in one step from T0={req['T0']!r} (phase exists down to "
+                             f"{tend:.6g}); that row is not in the table, which starts at T0 "
+                             f"and is flagged as a true end: {flag}", "data": data0})
+            elif tabT != reqT:
                 viol.append({"mech": "table-stops-short-of-requested-end",
                              "msg": f"{side} end: requested {reqT!r} is inside the existence "
                              f"interval (spinodal {tend:.9g}, {abs(reqT - tend) / dT:.3g} dT away) "
@@ -628,6 +747,12 @@ def judge_table(pot, phase, fe, req, rec, obs, viol, mon):
 def _materialise_end(side, em, spin_T, kind, cap, t_start, dT):
     """Requested end of the range on one side.  Returns (value, intended mode)."""
     sgn = -1.0 if side == "lo" else 1.0
+    if em["mode"] == "onestep":
+        # TMin one RK45 step (first_step = T0 - TMin <= dT) below the start
+        v = t_start - em["x"] * dT
+        if kind == "none" or v > spin_T + 2 * dT:
+            return v, "onestep"
+        em = {"mode": "deep", "x": 0.5}
     if kind == "none":
         # no spinodal here: somewhere between the cap and the start
         return t_start + sgn * max(em["x"] if em["mode"] == "deep" else 0.6, 0.2) * abs(cap - t_start) \
@@ -663,7 +788,10 @@ def _case_trace(case):
     TMin = max(TMin, 0.05 * t_start)
     rTol = case["rTol"]
     first = None
-    if case["first"] is not None:
+    if mlo == "onestep":
+        first = t_start - TMin
+        TMax = max(TMax, t_start + 1.05 * first)      # first_step must fit both directions
+    elif case["first"] is not None:
         first = min(case["first"] * dT, 0.5 * (TMax - t_start), 0.5 * (t_start - TMin))
     rng = np.random.default_rng(case["s"])
     b0 = B.branch(pot, phase, np.asarray(t_start))
@@ -693,7 +821,21 @@ def _case_trace(case):
         avail = min(TMax, thi) - max(TMin, tlo)
         obs.update(refused=str(exc)[:120], available_over_dT=avail / dT)
         msg = str(exc)
-        if "Temperature range negative" in msg and avail < 4.5 * dT:
+        if "Temperature range negative" in msg:
+            # rows the loop must have accepted: all steps but the last of each integration
+            up, down = rec.steps_of(0)[:-1], rec.steps_of(1)[:-1]
+            lo_e = min(down) if down else t_start
+            hi_e = max(up) if up else t_start
+            obs["expected_table_over_dT"] = (hi_e - lo_e) / dT
+            if hi_e - 2 * dT > lo_e + 2 * dT:
+                viol.append({"mech": ("single-downward-row-dropped" if len(down) == 1
+                                      else "accepted-step-missing-from-table"),
+                             "msg": f"tracePhase asserted '{msg[:60]}' although the accepted "
+                             f"RK45 steps span [{lo_e:.9g},{hi_e:.9g}] = {(hi_e - lo_e) / dT:.2f} dT "
+                             f"(> 4 dT); downward integration accepted {len(down)} row(s)",
+                             "data": obs})
+                return {"key": key, "cls": cls + ["refused:rows-dropped"], "nontrivial": True,
+                        "obs": obs, "viol": viol, "mon": mon}
             return {"key": key, "cls": ["refused:range-below-4dT"], "nontrivial": False,
                     "obs": obs, "viol": [], "mon": mon}
         if "unstable at starting temperature" in msg and case["guess_pert"] > 0:
